@@ -152,6 +152,23 @@ def iter_program(rng):
                 L.append("print(%s.reduce(|acc, v| { acc.push(v); return acc; }, [\"init\"]));" % chain)
             else:
                 L.append("for y in %s { print(y); }" % chain)
+        elif c < 56:
+            # adapters called directly on user iterables (Iter.map / filter / collect / reduce go through iter())
+            obj = r.choice(["Resetting.new([1, 2, 3])", "Handing.new(3)", "Count.new(3)", "Early.new()"])
+            L.append("{ var u = %s;" % obj)
+            for _ in range(r.range(1, 3)):
+                k = r.below(5)
+                if k == 0:
+                    L.append("  print(u.collect());")
+                elif k == 1:
+                    L.append("  print(u.map(%s).collect());" % r.choice(MAPS + MAPS_NUM))
+                elif k == 2:
+                    L.append("  print(u.filter(%s).collect());" % r.choice(FILTERS + FILTERS_NUM))
+                elif k == 3:
+                    L.append("  print(u.reduce(|a, v| a + v, 0));")
+                else:
+                    L.append("  for z in u { print(z); }")
+            L.append("}")
         elif c < 62:
             # one shared iterator consumed by nested / consecutive loops
             src = r.choice(["[1, 2, 3, 4, 5, 6]", "0..7", "\"abcdef\"", "Count.new(6)", "(1, 2, 3, 4)"])
